@@ -179,7 +179,7 @@ class Schedule:  # 0404
 
         self._full_schedule: OuterScheduleT | EmptyDictT = {}
 
-        self._payload_set: _PayloadSetT = EMPTY_PAYLOAD_SET  # Rx'd
+        self._payload_set: _PayloadSetT = EMPTY_PAYLOAD_SET.copy()  # Rx'd
         self._fragments: _FragmentSetT = []  # to Tx
 
         self._global_ver = 0  # None is a sentinel for 'dont know'
@@ -345,7 +345,7 @@ class Schedule:  # 0404
             return payload_set
 
         if payload[SZ_TOTAL_FRAGS] is None:  # zone has no schedule
-            payload_set = EMPTY_PAYLOAD_SET
+            payload_set = EMPTY_PAYLOAD_SET.copy()  # never hand out the (mutable) constant
             self._proc_payload_set(payload_set)
             return payload_set
 
